@@ -530,4 +530,370 @@ def echoBuiltin (args : List Bytes) : BRes :=
     | some b => .done { out := b ++ (if nl then [10] else []), status := 0 }
     | none => .panic
 
+/-! # Specification: what bash's `printf` and `echo` builtins do
+
+  Written from bash 5.2's documentation and `builtins/printf.def`, `builtins/echo.def`,
+  `lib/sh/strtrans.c` (UTF-8 locale, `xpg_echo` off), restricted to the directive set the property
+  names: `%[flags][width]{s,b,c,d,i,u,o,x}` with flags from `-`, `+`, space, `0` in any order and
+  number, `%%`, and the backslash escapes.  Everything else (precision, `#`, `*`, other
+  conversions, an incomplete directive, `printf -v`) is `outside`.  The harness validates this
+  specification against the real bash on every run (`bashprintf` / `bashecho` ops). -/
+namespace Spec
+
+/-- Where an escape sequence is expanded: a `printf` format, a `%b` argument, an `echo -e` argument. -/
+inductive Mode | format | pctB | echo
+  deriving DecidableEq, Repr
+
+def isOct (c : UInt8) : Bool := 48 ≤ c && c ≤ 55
+
+def hexVal (c : UInt8) : Option Nat :=
+  if 48 ≤ c ∧ c ≤ 57 then some (c.toNat - 48)
+  else if 97 ≤ c ∧ c ≤ 102 then some (c.toNat - 87)
+  else if 65 ≤ c ∧ c ≤ 70 then some (c.toNat - 55)
+  else none
+
+def octVal (c : UInt8) : Option Nat := if isOct c then some (c.toNat - 48) else none
+
+/-- Reads at most `max` leading digits: (value, number of digits). -/
+def takeDigits (base : Nat) (val : UInt8 → Option Nat) : Nat → Bytes → Nat → Nat × Nat
+  | 0, _, acc => (acc, 0)
+  | _, [], acc => (acc, 0)
+  | max + 1, c :: rest, acc =>
+    match val c with
+    | some d => let r := takeDigits base val max rest (acc * base + d); (r.1, r.2 + 1)
+    | none => (acc, 0)
+
+/-- bash's `u32toutf8`: the generalised (up to 6 byte) UTF-8 form, nothing above 0x7FFFFFFF. -/
+def utf8Ext (n : Nat) : Bytes :=
+  if n < 0x80 then [UInt8.ofNat n]
+  else if n < 0x800 then [UInt8.ofNat (0xC0 + n / 64), UInt8.ofNat (0x80 + n % 64)]
+  else if n < 0x10000 then
+    [UInt8.ofNat (0xE0 + n / 4096), UInt8.ofNat (0x80 + n / 64 % 64), UInt8.ofNat (0x80 + n % 64)]
+  else if n < 0x200000 then
+    [UInt8.ofNat (0xF0 + n / 262144), UInt8.ofNat (0x80 + n / 4096 % 64),
+     UInt8.ofNat (0x80 + n / 64 % 64), UInt8.ofNat (0x80 + n % 64)]
+  else if n < 0x4000000 then
+    [UInt8.ofNat (0xF8 + n / 16777216), UInt8.ofNat (0x80 + n / 262144 % 64),
+     UInt8.ofNat (0x80 + n / 4096 % 64), UInt8.ofNat (0x80 + n / 64 % 64), UInt8.ofNat (0x80 + n % 64)]
+  else if n < 0x80000000 then
+    [UInt8.ofNat (0xFC + n / 1073741824), UInt8.ofNat (0x80 + n / 16777216 % 64),
+     UInt8.ofNat (0x80 + n / 262144 % 64), UInt8.ofNat (0x80 + n / 4096 % 64),
+     UInt8.ofNat (0x80 + n / 64 % 64), UInt8.ofNat (0x80 + n % 64)]
+  else []
+
+/-- Result of one escape sequence: bytes written, bytes used after the backslash, and whether it
+    was `\c` (stop all output). -/
+structure Esc where
+  out : Bytes
+  used : Nat
+  stop : Bool := false
+  deriving DecidableEq, Repr
+
+/-- The single-character escapes shared by all three modes. -/
+def simpleEscape (c : UInt8) : Option UInt8 :=
+  if c = 97 then some 7          -- \a
+  else if c = 98 then some 8     -- \b
+  else if c = 101 ∨ c = 69 then some 27 -- \e \E
+  else if c = 102 then some 12   -- \f
+  else if c = 110 then some 10   -- \n
+  else if c = 114 then some 13   -- \r
+  else if c = 116 then some 9    -- \t
+  else if c = 118 then some 11   -- \v
+  else if c = 92 then some 92    -- \\
+  else none
+
+/-- An escape sequence; `s` is the text after the backslash.  An unrecognised sequence writes the
+    backslash and uses nothing (the next character is then treated normally). -/
+def escape (m : Mode) (s : Bytes) : Esc :=
+  match s with
+  | [] => { out := [92], used := 0 }
+  | c :: after =>
+    match simpleEscape c with
+    | some b => { out := [b], used := 1 }
+    | none =>
+      if c = 39 ∨ c = 34 ∨ c = 63 then
+        -- \' \" \? : the character in a format; kept with the backslash in %b and echo -e
+        if m = .format then { out := [c], used := 1 } else { out := [92, c], used := 1 }
+      else if c = 48 then
+        -- \0: format: up to 3 digits in all; %b and echo -e: up to 3 digits after the 0
+        let r := takeDigits 8 octVal (if m = .format then 2 else 3) after 0
+        { out := [UInt8.ofNat (r.1 % 256)], used := 1 + r.2 }
+      else if isOct c then
+        -- \1 … \7: up to 3 digits; not an escape for echo -e
+        if m = .echo then { out := [92], used := 0 }
+        else
+          let r := takeDigits 8 octVal 2 after (c.toNat - 48)
+          { out := [UInt8.ofNat (r.1 % 256)], used := 1 + r.2 }
+      else if c = 120 then
+        let r := takeDigits 16 hexVal 2 after 0
+        if r.2 = 0 then { out := [92], used := 0 } else { out := [UInt8.ofNat r.1], used := 1 + r.2 }
+      else if c = 117 ∨ c = 85 then
+        let r := takeDigits 16 hexVal (if c = 117 then 4 else 8) after 0
+        if r.2 = 0 then { out := [92], used := 0 } else { out := utf8Ext r.1, used := 1 + r.2 }
+      else if c = 99 ∧ m ≠ .format then { out := [], used := 1, stop := true }
+      else { out := [92], used := 0 }
+
+/-- Result of expanding all escapes of a `%b` / `echo -e` argument. -/
+structure Expanded where
+  out : Bytes
+  stop : Bool
+  deriving DecidableEq, Repr
+
+def Expanded.prepend (o : Bytes) (e : Expanded) : Expanded := { e with out := o ++ e.out }
+
+/-- Expands the escapes of a `%b` or `echo -e` argument (`skip` = bytes already used). -/
+def expand (m : Mode) : Bytes → Nat → Expanded
+  | [], _ => { out := [], stop := false }
+  | _ :: rest, k + 1 => expand m rest k
+  | c :: rest, 0 =>
+    if c = 92 then
+      let e := escape m rest
+      if e.stop then { out := e.out, stop := true }
+      else (expand m rest e.used).prepend e.out
+    else (expand m rest 0).prepend [c]
+
+/-- A conversion specification. -/
+structure Dir where
+  minus : Bool := false
+  plus : Bool := false
+  space : Bool := false
+  zero : Bool := false
+  width : Nat := 0
+  verb : UInt8
+  deriving DecidableEq, Repr
+
+def isVerb (c : UInt8) : Bool :=
+  c = 115 || c = 98 || c = 99 || c = 100 || c = 105 || c = 117 || c = 111 || c = 120
+
+/-- Parses `[flags][width]verb` (the text after `%`): the directive and its length; `none` =
+    outside the property's directive set. -/
+def parseDir : Bytes → Dir → Bool → Nat → Option (Dir × Nat)
+  | [], _, _, _ => none
+  | c :: rest, d, inWidth, n =>
+    if ¬ inWidth ∧ c = 45 then parseDir rest { d with minus := true } false (n + 1)
+    else if ¬ inWidth ∧ c = 43 then parseDir rest { d with plus := true } false (n + 1)
+    else if ¬ inWidth ∧ c = 32 then parseDir rest { d with space := true } false (n + 1)
+    else if ¬ inWidth ∧ c = 48 then parseDir rest { d with zero := true } false (n + 1)
+    else if 48 ≤ c ∧ c ≤ 57 then parseDir rest { d with width := d.width * 10 + (c.toNat - 48) } true (n + 1)
+    else if isVerb c then some ({ d with verb := c }, n + 1)
+    else none
+
+def isSpace (c : UInt8) : Bool := c = 32 || (9 ≤ c && c ≤ 13)
+
+/-- Digits of the longest numeric prefix in the given base: (value, rest, any digit seen). -/
+def scanDigits (base : Nat) : Bytes → Nat → Bool → Nat × Bytes × Bool
+  | [], acc, any => (acc, [], any)
+  | c :: rest, acc, any =>
+    match hexVal c with
+    | some d => if d < base then scanDigits base rest (acc * base + d) true else (acc, c :: rest, any)
+    | none => (acc, c :: rest, any)
+
+/-- `strtoimax(s, &ep, 0)` / `strtoumax` before range handling: sign, magnitude, the unparsed
+    rest `ep` (the whole string when there is no digit). -/
+structure Scan where
+  neg : Bool
+  mag : Nat
+  rest : Bytes
+  deriving DecidableEq, Repr
+
+def scanNum (s : Bytes) : Scan :=
+  let t := s.dropWhile isSpace
+  let (neg, u) : Bool × Bytes := match t with
+    | c :: r => if c = 45 then (true, r) else if c = 43 then (false, r) else (false, t)
+    | [] => (false, t)
+  let none_ : Scan := { neg := false, mag := 0, rest := s }
+  match u with
+  | c0 :: r0 =>
+    if c0 = 48 then
+      match r0 with
+      | c1 :: r1 =>
+        if c1 = 120 ∨ c1 = 88 then
+          -- 0x must be followed by a hex digit, otherwise only the "0" is a number
+          match scanDigits 16 r1 0 false with
+          | (v, rest, true) => { neg := neg, mag := v, rest := rest }
+          | _ => { neg := neg, mag := 0, rest := r0 }
+        else
+          let r := scanDigits 8 r0 0 true
+          { neg := neg, mag := r.1, rest := r.2.1 }
+      | [] => { neg := neg, mag := 0, rest := [] }
+    else
+      match scanDigits 10 u 0 false with
+      | (v, rest, true) => { neg := neg, mag := v, rest := rest }
+      | _ => none_
+  | [] => none_
+
+/-- Value of a numeric argument and whether bash reports "invalid number" (status 1). -/
+structure Num where
+  val : Int
+  bad : Bool
+  deriving DecidableEq, Repr
+
+/-- `'c` / `"c`: the code of the character after the quote (single bytes only here). -/
+def quoteCode (s : Bytes) : Option Int :=
+  match s with
+  | q :: r => if q = 39 ∨ q = 34 then (match r with | c :: _ => some (Int.ofNat c.toNat) | [] => some 0) else none
+  | [] => none
+
+/-- Signed argument (`%d %i`): clamped to the int64 range. -/
+def signedArg (s : Bytes) : Num :=
+  match quoteCode s with
+  | some v => { val := v, bad := false }
+  | none =>
+    let sc := scanNum s
+    let v : Int := if sc.neg then - Int.ofNat sc.mag else Int.ofNat sc.mag
+    let v := if v > 9223372036854775807 then 9223372036854775807
+             else if v < -9223372036854775808 then -9223372036854775808 else v
+    { val := v, bad := sc.rest ≠ [] }
+
+/-- Unsigned argument (`%u %o %x`): modulo 2^64 for negatives, 2^64-1 on overflow. -/
+def unsignedArg (s : Bytes) : Num :=
+  match quoteCode s with
+  | some v => { val := v, bad := false }
+  | none =>
+    let sc := scanNum s
+    let v : Nat := if sc.mag > maxU64 then maxU64
+                   else if sc.neg then (two64 - sc.mag) % two64 else sc.mag
+    { val := Int.ofNat v, bad := sc.rest ≠ [] }
+
+def spaces (n : Nat) : Bytes := List.replicate n 32
+def zeros (n : Nat) : Bytes := List.replicate n 48
+
+/-- Field-width padding with spaces (bytes are counted). -/
+def padTo (minus : Bool) (w : Nat) (body : Bytes) : Bytes :=
+  if minus then body ++ spaces (w - body.length) else spaces (w - body.length) ++ body
+
+/-- C's `%d`-family rule: sign, then zero padding (flag `0` without `-`) or space padding. -/
+def fmtNum (d : Dir) (sign digits : Bytes) : Bytes :=
+  if d.zero ∧ ¬ d.minus then sign ++ zeros (d.width - sign.length - digits.length) ++ digits
+  else padTo d.minus d.width (sign ++ digits)
+
+def fmtSigned (d : Dir) (v : Int) : Bytes :=
+  let sign : Bytes := if v < 0 then [45] else if d.plus then [43] else if d.space then [32] else []
+  fmtNum d sign (natDigits 10 v.natAbs)
+
+def fmtUnsigned (d : Dir) (base : Nat) (v : Nat) : Bytes := fmtNum d [] (natDigits base v)
+
+/-- What one directive writes: bytes, conversion error, `\c` seen. -/
+structure DirOut where
+  out : Bytes
+  bad : Bool := false
+  stop : Bool := false
+  deriving DecidableEq, Repr
+
+/-- Semantics of one directive applied to its argument (`[]` when the arguments ran out). -/
+def runDir (d : Dir) (arg : Bytes) : DirOut :=
+  if d.verb = 115 then { out := padTo d.minus d.width arg }
+  else if d.verb = 99 then { out := padTo d.minus d.width [arg.headD 0] }
+  else if d.verb = 98 then
+    let e := expand .pctB arg 0
+    { out := padTo d.minus d.width e.out, stop := e.stop }
+  else if d.verb = 100 ∨ d.verb = 105 then
+    let n := signedArg arg
+    { out := fmtSigned d n.val, bad := n.bad }
+  else
+    let n := unsignedArg arg
+    let base := if d.verb = 111 then 8 else if d.verb = 120 then 16 else 10
+    { out := fmtUnsigned d base n.val.toNat, bad := n.bad }
+
+/-- Result of one pass over the format. -/
+inductive Pass
+  | ok (out : Bytes) (argsLeft : List Bytes) (bad : Bool) (stop : Bool)
+  | outside
+  deriving DecidableEq, Repr
+
+def Pass.prepend (o : Bytes) (b : Bool) : Pass → Pass
+  | .ok out a bad stop => .ok (o ++ out) a (b || bad) stop
+  | .outside => .outside
+
+/-- One pass over the format string (`skip` = bytes already used by the previous item). -/
+def pass : Bytes → Nat → List Bytes → Pass
+  | [], _, args => .ok [] args false false
+  | _ :: rest, k + 1, args => pass rest k args
+  | c :: rest, 0, args =>
+    if c = 92 then
+      let e := escape .format rest
+      (pass rest e.used args).prepend e.out false
+    else if c = 37 then
+      match rest with
+      | [] => .outside
+      | c1 :: _ =>
+        if c1 = 37 then (pass rest 1 args).prepend [37] false
+        else
+          match parseDir rest { verb := 0 } false 0 with
+          | none => .outside
+          | some (d, used) =>
+            let r := runDir d (args.headD [])
+            if r.stop then .ok r.out (args.drop 1) r.bad true
+            else (pass rest used (args.drop 1)).prepend r.out r.bad
+    else (pass rest 0 args).prepend [c] false
+
+inductive Res
+  | res (out : Bytes) (status : Nat)
+  | outside
+  | outOfFuel
+  deriving DecidableEq, Repr
+
+/-- The format is reused while arguments remain and the last pass consumed at least one. -/
+def printfLoop : Nat → Bytes → List Bytes → Bytes → Bool → Res
+  | 0, _, _, _, _ => .outOfFuel
+  | fuel + 1, fmt, args, acc, bad =>
+    match pass fmt 0 args with
+    | .outside => .outside
+    | .ok out left b stop =>
+      let acc := acc ++ out
+      let bad := bad || b
+      -- `\c` returns at once, before the "invalid number" status is folded in
+      if stop then .res acc 0
+      else if left = [] ∨ left.length = args.length then .res acc (if bad then 1 else 0)
+      else printfLoop fuel fmt left acc bad
+
+def printfRun (words : List Bytes) : Res :=
+  match words with
+  | [] => .res [] 2            -- usage
+  | fmt :: args => printfLoop (args.length + 1) fmt args [] false
+
+/-- `printf word…`: `--` ends the options, any other `-x…` word is an invalid option (usage
+    message, status 2; `-v var` is outside this specification), then the loop. -/
+def printf (words : List Bytes) : Res :=
+  match words with
+  | [] => .res [] 2
+  | w :: rest =>
+    if w = [45, 45] then printfRun rest
+    else match w with
+      | 45 :: c :: _ => if c = 118 then .outside else .res [] 2
+      | _ => printfRun words
+
+/-- Is the word an option word of `echo`: `-` followed by one or more of `n`, `e`, `E`? -/
+def isEchoOpt (w : Bytes) : Bool :=
+  match w with
+  | 45 :: c :: rest => (c :: rest).all fun x => x = 110 || x = 101 || x = 69
+  | _ => false
+
+/-- Leading option words: (newline, expand, remaining words). -/
+def echoOpts : List Bytes → Bool → Bool → Bool × Bool × List Bytes
+  | [], nl, ex => (nl, ex, [])
+  | w :: rest, nl, ex =>
+    if isEchoOpt w then
+      let st := (w.drop 1).foldl (fun (st : Bool × Bool) c =>
+        if c = 110 then (false, st.2) else if c = 101 then (st.1, true) else (st.1, false)) (nl, ex)
+      echoOpts rest st.1 st.2
+    else (nl, ex, w :: rest)
+
+/-- The words separated by single spaces, escapes expanded when `-e`; `\c` stops everything. -/
+def echoBody (ex : Bool) : List Bytes → Bool → Expanded
+  | [], _ => { out := [], stop := false }
+  | w :: rest, first =>
+    let sep : Bytes := if first then [] else [32]
+    let e : Expanded := if ex then expand .echo w 0 else { out := w, stop := false }
+    if e.stop then { out := sep ++ e.out, stop := true }
+    else (echoBody ex rest false).prepend (sep ++ e.out)
+
+def echo (words : List Bytes) : Res :=
+  match echoOpts words true false with
+  | (nl, ex, rest) =>
+    let b := echoBody ex rest true
+    .res (b.out ++ (if nl ∧ ¬ b.stop then [10] else [])) 0
+
+end Spec
+
 end ShVerif.C24
